@@ -98,7 +98,8 @@ CLAIMED['C08'] = {
             'the InvalidTopology variant gate); every Ok of the public repair entry points lies behind the success edge of '
             'the post-condition verifier (greatest fixed point); the Delaunay verifiers drop no checker result; the flip '
             'drivers cannot write the vertex maps and the heuristic rebuild re-inserts every stored vertex and fails on a '
-            'skipped one; the work-list seeding shared by repair and verifier covers every simplex class per cell. '
+            'skipped one; the work-list seeding shared by repair and verifier covers every simplex class per cell; no exported '
+            'operation returns success after a flip driver succeeded without the cell orientation having been re-validated. '
             'Decides budget / admissibility / post-condition gating, not convergence or uniqueness.',
     'note': 'Trusted: rustc MIR; the four flip-predicate post-condition checkers and validate_cell_delaunay are leaves '
             '(their numerical verdict is C04, not applicable).',
@@ -123,7 +124,9 @@ CLAIMED['C01'] = {
     'text': 'Static, per build profile: every exported batch constructor of DelaunayTriangulation / the builder returns Ok '
             'only behind the success edge of a sound Delaunay verifier (greatest fixed point over all bodies returning '
             'Result<DelaunayTriangulation..>, closures and the retry / fallback wrappers included), and the PL-manifold '
-            'completion check is passed on the true edge of requires_vertex_links_at_completion. The debug and the '
+            'completion check is passed on the true edge of requires_vertex_links_at_completion; certifiers are verifiers that '
+            'cannot answer Ok without a check having run; no constructor returns Ok after a flip repair without the cell '
+            'orientation having been re-validated. The debug and the '
             'release fact bases are analysed separately because RetryPolicy and validation paths differ — the suite '
             'never runs the release paths. Decides "Ok is certified", not that the certifier is numerically right.',
     'note': 'Trusted: rustc MIR; the L4 leaf table; Pseudomanifold has no Level-3 completion gate by design (noted in '
@@ -147,9 +150,12 @@ CLAIMED['C06'] = {
     'text': 'Static: both remove_vertex layers and the inverse k=1 flip are clean on failure (the C03 rollback dataflow '
             'restricted to these owners); for an unknown vertex no storage mutation is reachable and the only exits are '
             'Ok(0); the fan retriangulation reports success only behind the local facet, orientation and incidence checks; '
-            'when the repair policy fires, Ok lies behind the success edge of the verified flip repair. Decides rollback, '
-            'the no-op clause and the gating of removal; not the geometric validity of the fan fill.',
-    'note': 'Trusted: as for C03; star-shapedness of the cavity is geometric and not decided.',
+            'when the repair policy fires, Ok lies behind the success edge of the verified flip repair, and that decision does '
+            'not read the insertion counter; the fan retriangulation must report success only behind a Level-3 validation of '
+            'its result (violated today: known finding F13, hull vertices). Decides rollback, the no-op clause and the gating '
+            'of removal; not whether a valid fan exists.',
+    'note': 'Trusted: as for C03. Known finding F13 is listed in known_findings.txt with its run-time witnesses; the check '
+            'prints KNOWN-FINDING for it and exits 0.',
     'technique': 'rollback dataflow + must-pass-through (dominance) over rustc MIR',
     'design': '§5 C06',
 }
@@ -157,9 +163,10 @@ CLAIMED['C07'] = {
     'text': 'Static: in the flip kernel every legality guard (duplicate cell, non-manifold facet, existing simplex, '
             'degenerate cell, the five arity / disjointness rejections) lies before the first cell insertion on every path '
             '(per-cell guard loops checked per iteration); flip contexts are constructed only by the six validated '
-            'builders; the 12 Edit-API methods and the kernel layers are clean on failure (C03 engine). Decides "no '
-            'mutation before the guards, no unvalidated context, no trace on failure"; not manifold preservation, counts '
-            'or invertibility.',
+            'builders; the 12 Edit-API methods and the kernel layers are clean on failure (C03 engine); every simplex hash '
+            'used by the guards is computed over the same canonical (u64-sorted) key sequence at the index builder and at '
+            'every lookup. Decides "no mutation before the guards, no unvalidated context, no trace on failure, guards and '
+            'index agree on keys"; not manifold preservation, counts or invertibility.',
     'note': 'Trusted: as for C03; 6 assumed-infeasible exits in the kernel (open item F2) are shared with C03.',
     'technique': 'must-pass-through (dominance), construction-site enumeration and rollback dataflow over rustc MIR',
     'design': '§5 C07',
